@@ -5,6 +5,7 @@ import (
 	"fmt"
 	"math/big"
 	"net"
+	"reflect"
 	"strings"
 	"testing"
 	"unicode"
@@ -54,26 +55,47 @@ func genAddr(t *rapid.T, label string) uint32 {
 	}
 }
 
+// sameExported compares two values of the library (or pointers to them) by their exported fields: the
+// value of an address or a range is what its exported fields say; what an implementation keeps in unexported
+// ones (a memoised text, say) is not part of it.
+func sameExported(a, b any) bool {
+	va, vb := reflect.Indirect(reflect.ValueOf(a)), reflect.Indirect(reflect.ValueOf(b))
+	if va.Type() != vb.Type() {
+		return false
+	}
+	for i := 0; i < va.NumField(); i++ {
+		if !va.Type().Field(i).IsExported() {
+			continue
+		}
+		if !reflect.DeepEqual(va.Field(i).Interface(), vb.Field(i).Interface()) {
+			return false
+		}
+	}
+	return true
+}
+
+// is: the library value has exactly this address and prefix length (exported fields)
+func (a v4) is(x *ip.IPv4) bool {
+	return x != nil && x.A == uint8(a.Addr>>24) && x.B == uint8(a.Addr>>16) && x.C == uint8(a.Addr>>8) && x.D == uint8(a.Addr) && x.MaskBits == a.Bits
+}
+
 // ---- ipv4 text ------------------------------------------------------------------
 
+// The property asks that printed text parses back to the same value; it fixes no literal format. Every text the
+// library prints for an address with its prefix (String, CIDRAddress) is handed to the library's own parser.
 func checkV4Text(c v4) []vf.Finding {
 	x := c.lib()
-	want := c.String()
 	var fs []vf.Finding
-	if got := x.String(); got != want {
-		fs = append(fs, vf.F("IPv4.String", "text-differs-from-dotted-cidr", "got %q want %q", got, want))
-	}
-	if got := x.CIDRAddress(); got != want {
-		fs = append(fs, vf.F("IPv4.CIDRAddress", "text-differs-from-dotted-cidr", "got %q want %q", got, want))
-	}
 	if x.ToUInt32() != c.Addr {
-		fs = append(fs, vf.F("IPv4.ToUInt32", "value-differs", "%s: %#x", want, x.ToUInt32()))
+		fs = append(fs, vf.F("IPv4.ToUInt32", "value-differs", "%s: %#x", c, x.ToUInt32()))
 	}
-	p := ip.NewIPv4FromString(x.String())
-	if p == nil {
-		fs = append(fs, vf.F("ip.NewIPv4FromString", "own-text-rejected", "%q -> nil", x.String()))
-	} else if *p != *x {
-		fs = append(fs, vf.F("ip.NewIPv4FromString", "print-parse-not-identity", "%q -> %+v", x.String(), *p))
+	for _, pr := range []struct{ method, text string }{{"String", x.String()}, {"CIDRAddress", x.CIDRAddress()}} {
+		p := ip.NewIPv4FromString(pr.text)
+		if p == nil {
+			fs = append(fs, vf.F("ip.NewIPv4FromString", "own-text-rejected", "%s of %s: %q -> nil", pr.method, c, pr.text))
+		} else if !sameExported(p, x) || !c.is(p) {
+			fs = append(fs, vf.F("ip.NewIPv4FromString", "print-parse-not-identity", "%s of %s: %q -> %+v", pr.method, c, pr.text, *p))
+		}
 	}
 	return fs
 }
@@ -114,7 +136,8 @@ func checkSubnet(c subnetCase) []vf.Finding {
 	if cm.ToUInt32() != c.Net&m || cm.MaskBits != c.Len {
 		fs = append(fs, vf.F("IPv4.ComputeMask", "differs-from-standard-mask", "%s: got %s want %s", v4{c.Net, c.Len}, cm.String(), v4{c.Net & m, c.Len}))
 	}
-	if got, w := sn.CIDRMask(), (v4{c.Net & m, c.Len}).String(); got != w {
+	// CIDRMask prints that network; the text is read back by the library's own parser, no literal format is demanded
+	if got, w := sn.CIDRMask(), (v4{c.Net & m, c.Len}); !w.is(ip.NewIPv4FromString(got)) {
 		fs = append(fs, vf.F("IPv4.CIDRMask", "differs-from-standard-mask", "%s: got %s want %s", v4{c.Net, c.Len}, got, w))
 	}
 	return fs
@@ -185,10 +208,26 @@ func checkRange4(c rangeCase) []vf.Finding {
 	if got := r.Contains(x); got != want {
 		fs = append(fs, vf.F("IPv4Range.Contains", "differs-from-unsigned-comparison", "%s in %s: got %v", x, r, got))
 	}
-	if got, w := r.String(), a.String()+" - "+b.String(); got != w {
-		fs = append(fs, vf.F("IPv4Range.String", "text-differs", "got %q want %q", got, w))
+	// address ranges have no parser: the text must name both endpoints, start before end, in whatever format
+	if got := r.String(); !inOrder(got, a.String(), b.String()) {
+		fs = append(fs, vf.F("IPv4Range.String", "text-lacks-endpoints-in-order", "got %q for start %q end %q", got, a.String(), b.String()))
 	}
 	return fs
+}
+
+// inOrder: s contains a and, after that occurrence of a, b
+func inOrder(s, a, b string) bool {
+	for from := 0; from <= len(s); {
+		i := strings.Index(s[from:], a)
+		if i < 0 {
+			return false
+		}
+		if strings.Contains(s[from+i+len(a):], b) {
+			return true
+		}
+		from += i + 1
+	}
+	return false
 }
 
 func TestIPv4Range(t *testing.T) {
@@ -257,18 +296,16 @@ type v6Case struct {
 func checkV6(c v6Case) []vf.Finding {
 	var fs []vf.Finding
 	x, a, b := c.IP.lib(), c.Start.lib(), c.End.lib()
-	// text
-	want := fmt.Sprintf("%x:%x:%x:%x:%x:%x:%x:%x", c.IP.G[0], c.IP.G[1], c.IP.G[2], c.IP.G[3], c.IP.G[4], c.IP.G[5], c.IP.G[6], c.IP.G[7])
+	// text: no literal format is demanded, the text must denote the address and parse back to the same value
 	txt := x.String()
 	if std := net.ParseIP(txt); std == nil || new(big.Int).SetBytes(std.To16()).Cmp(c.IP.big()) != 0 {
 		fs = append(fs, vf.F("IPv6.String", "text-not-the-address", "%v -> %q (net.ParseIP: %v)", c.IP.G, txt, std))
 	}
-	_ = want
 	for _, form := range []string{txt, strings.ToUpper(txt)} {
 		p := ip.NewIPv6FromString(form)
 		if p == nil {
 			fs = append(fs, vf.F("ip.NewIPv6FromString", "own-text-rejected", "%q -> nil", form))
-		} else if *p != *x {
+		} else if !sameExported(p, x) {
 			fs = append(fs, vf.F("ip.NewIPv6FromString", "print-parse-not-identity", "%q -> %+v", form, *p))
 		}
 	}
@@ -325,16 +362,16 @@ type portCase struct {
 
 func checkPorts(c portCase) []vf.Finding {
 	r := ip.NewTCPPortRange(c.Start, c.End)
-	want := fmt.Sprintf("%d-%d", c.Start, c.End)
 	var fs []vf.Finding
-	if r.String() != want {
-		fs = append(fs, vf.F("TCPPortRange.String", "text-differs", "got %q want %q", r.String(), want))
+	if r.Start != c.Start || r.End != c.End {
+		fs = append(fs, vf.F("ip.NewTCPPortRange", "value-differs", "%d, %d -> %+v", c.Start, c.End, *r))
 	}
+	// no literal format is demanded: the printed text goes through the library's own parser
 	p, err := ip.NewTCPPortRangeFromString(r.String())
 	if err != nil || p == nil {
 		fs = append(fs, vf.F("ip.NewTCPPortRangeFromString", "own-text-rejected", "%q: %v", r.String(), err))
-	} else if *p != *r {
-		fs = append(fs, vf.F("ip.NewTCPPortRangeFromString", "print-parse-not-identity", "%q -> %+v", r.String(), *p))
+	} else if !sameExported(p, r) || p.Start != c.Start || p.End != c.End {
+		fs = append(fs, vf.F("ip.NewTCPPortRangeFromString", "print-parse-not-identity", "%d-%d: %q -> %+v", c.Start, c.End, r.String(), *p))
 	}
 	return fs
 }
